@@ -129,13 +129,48 @@ def check_config(cfg, seed, part):
     lin_names = ["v0"] + [f"dv0_{k}" for k in range(1, no + 1)] + [f"v{i}" for i in range(1, pt_)]
     for c, nm in enumerate(lin_names):
         rows[nm] = (np.linspace(-1.0, 2.0, nrows) + 0.1 * c) * (u.km / u.s / u.day ** (int(nm[1:]) if nm.startswith("v") else 0))
+    if cfg.get("logprobs"):
+        # samples that carry log-probabilities (as returned with return_logprobs=True); the best row is NOT the median-period row
+        rows["ln_prior"] = -np.arange(nrows, dtype=float)
+        rows["ln_likelihood"] = -10.0 * np.abs(np.arange(nrows) - 2.0)
     joker = tj.TheJoker(prior)
+
+    def snapshot(d):
+        ds = d if isinstance(d, list) else [d]
+        return [(np.array(x._t_bmjd).copy(), np.array(x.rv.value).copy(), np.array(x.rv_err.value).copy(), str(x.rv.unit), str(x.rv_err.unit), float(x._t_ref_bmjd)) for x in ds]
+
+    before = snapshot(data)
+    rows_before = {k: np.array(rows.tbl[k].value if hasattr(rows.tbl[k], "value") else rows.tbl[k]).copy() for k in rows.par_names}
     try:
+        if cfg.get("reuse"):
+            # call history on ONE data object: another model is built from the same data first
+            import pymc as pm
+
+            m0, p0, _, _, _ = build(dict(cfg, poly_trend=1 if cfg["poly_trend"] > 1 else 2, n_offsets=cfg["n_offsets"], reuse=False), seed)
+            with m0:
+                r0 = tj.JokerSamples(poly_trend=p0.poly_trend, n_offsets=p0.n_offsets)
+                for k in ("P", "e", "omega", "M0", "s", "K", "v0"):
+                    r0[k] = rows[k][:1]
+                for k in p0.par_names:
+                    if k not in r0.par_names:
+                        r0[k] = [0.01] * (u.km / u.s / u.day ** (int(k[1:]) if k.startswith("v") else 0))
+                tj.TheJoker(p0).setup_mcmc(data, r0)
         with model:
             init = joker.setup_mcmc(data, rows)
     except Exception as e:
         part.violation(case0, f"setup_mcmc raised {type(e).__name__}: {str(e)[:300]}")
         return
+    after = snapshot(data)
+    for b_, a_ in zip(before, after):
+        if not all(np.array_equal(x, y) if isinstance(x, np.ndarray) else x == y for x, y in zip(b_, a_)):
+            part.violation(dict(case0, part="inputs"), "setup_mcmc modified the data object it was given", expected=[x.tolist() if isinstance(x, np.ndarray) else x for x in b_],
+                           observed=[x.tolist() if isinstance(x, np.ndarray) else x for x in a_])
+            return
+    for k, v in rows_before.items():
+        now = np.array(rows.tbl[k].value if hasattr(rows.tbl[k], "value") else rows.tbl[k])
+        if not np.array_equal(v, now):
+            part.violation(dict(case0, part="inputs"), f"setup_mcmc modified column {k} of the samples it was given", expected=v, observed=now)
+            return
     # (4) initial point = chosen sample in the prior's units
     j = int(np.argsort(Ps[:nrows])[nrows // 2]) if nrows > 1 else 0
     vf, Pf = dec["vf"], dec["Pf"]
@@ -234,6 +269,9 @@ def configs(quick):
         if quick and (pt_ + no + (jit == "sampled") + ["default", "P_yr", "prior_ms", "err_ms"].index(un)) % 3 != 0:
             continue
         out.append(dict(poly_trend=pt_, n_offsets=no, jitter=jit, units=un, n_init=5 if (pt_ + no) % 2 else 1))
+    for pt_, no, jit in ((1, 0, "constant"), (2, 1, "sampled"), (3, 0, "constant"), (2, 2, "constant")):
+        out.append(dict(poly_trend=pt_, n_offsets=no, jitter=jit, units="default", n_init=5, logprobs=True))
+        out.append(dict(poly_trend=pt_, n_offsets=no, jitter=jit, units="default", n_init=1, reuse=True))
     for pt_ in (1, 2, 3):
         for tref in ("utc", "tcb"):
             if quick and (pt_ == 3 or (pt_ == 1 and tref == "tcb")):
@@ -247,7 +285,8 @@ def main():
         PID, "exploration",
         "configurations poly_trend 1..3 x offsets 0..2 (surveys interleaved in time) x jitter {constant, sampled} x units {all default; "
         "period prior in yr; K / trend / offset / jitter priors in m/s with data in km/s; errors in another unit than the velocities} "
-        "(72; quick: a 24-configuration third) plus explicit reference epochs given in UTC / TCB: setup_mcmc is called with 1 or 5 samples (columns in foreign units), the model's "
+        "(72; quick: a 24-configuration third) plus explicit reference epochs given in UTC / TCB, samples carrying ln_prior / ln_likelihood columns, and a call "
+        "history in which another model was built from the SAME data object first (inputs must come back unmodified): setup_mcmc is called with 1 or 5 samples (columns in foreign units), the model's "
         "model_rv / ln_likelihood / logp(jacobian=False) are compiled once with RVs replaced by values and evaluated on 4 theta x 3 "
         "linear-parameter points: model_rv = M(theta) x (reference Kepler solver and design matrix), ln_likelihood = ln N(y|model, "
         "sigma^2+s^2), differences of the log-density = differences of declared prior + Gaussian term, mcmc_init = median-period sample "
